@@ -426,6 +426,59 @@ pub fn scope_and_size_family() -> Vec<(String, Vec<Form>)> {
             )),
         ))],
     ));
+    // an assignment in the body of a binding form reaches the innermost variable of that name, never an outer one
+    let setv = |n: &str, e: Expr| Expr::Set(n.into(), Box::new(e));
+    out.push((
+        "let: set! of a variable that shadows a global".into(),
+        vec![
+            Form::Define(Def { name: "v".into(), value: Expr::Int(1), sugar: false }),
+            Form::Expr(Expr::Let(vec![("v".into(), Expr::Int(10))], Box::new(Body { defs: vec![], exprs: vec![setv("v", app("+", vec![var("v"), Expr::Int(5)])), var("v")] }))),
+            Form::Expr(var("v")),
+        ],
+    ));
+    out.push((
+        "let*: set! of a name bound twice".into(),
+        vec![Form::Expr(Expr::LetStar(
+            vec![("a".into(), Expr::Int(1)), ("get-a".into(), lam0(var("a"))), ("a".into(), app("+", vec![var("a"), Expr::Int(1)]))],
+            Box::new(Body { defs: vec![], exprs: vec![setv("a", app("*", vec![var("a"), Expr::Int(10)])), app("list", vec![var("a"), call("get-a")])] }),
+        ))],
+    ));
+    out.push((
+        "nested let: set! of the inner of two variables of one name".into(),
+        vec![Form::Expr(Expr::Let(
+            vec![("w".into(), Expr::Int(1))],
+            Box::new(Body {
+                defs: vec![],
+                exprs: vec![
+                    Expr::Let(vec![("w".into(), Expr::Int(2))], Box::new(Body { defs: vec![], exprs: vec![setv("w", Expr::Int(3)), var("w")] })),
+                    var("w"),
+                ],
+            }),
+        ))],
+    ));
+    out.push((
+        "when / cond bodies: set! of a let variable that shadows a parameter".into(),
+        vec![
+            Form::Define(Def {
+                name: "shadowing".into(),
+                value: Expr::Lambda(
+                    Formals { fixed: vec!["p".into()], rest: None },
+                    body1(Expr::Let(
+                        vec![("p".into(), app("+", vec![var("p"), Expr::Int(100)]))],
+                        Box::new(Body {
+                            defs: vec![],
+                            exprs: vec![
+                                Expr::When(Box::new(Expr::Bool(true)), vec![setv("p", app("+", vec![var("p"), Expr::Int(1)]))]),
+                                Expr::Cond(vec![Clause::Then(Expr::Bool(true), vec![setv("p", app("+", vec![var("p"), Expr::Int(1)])), var("p")])], None),
+                            ],
+                        }),
+                    )),
+                ),
+                sugar: true,
+            }),
+            Form::Expr(app("shadowing", vec![Expr::Int(5)])),
+        ],
+    ));
     for n in [257usize, 258, 300, 700] {
         let ints = |n: usize| (1..=n as i32).map(Expr::Int).collect::<Vec<_>>();
         let mut seq = ints(n);
